@@ -249,6 +249,54 @@ def rule_r9(ck, prog, rule='C13.R9', cls='sdk::logs::ReadWriteLogRecord'):
     return cnt
 
 
+def rule_r10(ck, prog, rule='C13.R10'):
+    """no view over a possibly-null character pointer: in the argument setters of the logs API (LogRecordSetterTrait<...>::Set) a
+    nostd::string_view (or std::string) built from `p.get()` of an owning pointer member that one of the class's constructors leaves
+    null (EventId(int64_t) has no name) has to be behind a non-null test of that pointer - string_view(const char*) measures the
+    text with strlen and crashes on nullptr.  Decided by pinning: with the pointer pinned to null the construction is unreachable."""
+    cnt = 0
+    for f in sorted(prog.funcs.values(), key=lambda x: x.key):
+        if 'LogRecordSetterTrait<' not in f.qn or f.name != 'Set' or not f.blocks:
+            continue
+        g = None
+        for n in f.nodes:
+            if n['k'] != 'construct' or not (strip_targs(n.get('c', '')).endswith('nostd::string_view::string_view') or 'basic_string' in strip_targs(n.get('c', ''))):
+                continue
+            args = [a for a in n.get('args', []) if a is not None and a >= 0 and f.nodes[a]['k'] != 'defarg']
+            if len(args) != 1:
+                continue
+            an = strip_casts(f, args[0])
+            if not (an['k'] == 'call' and strip_targs(an.get('c', '')).rsplit('::', 1)[-1] == 'get' and an.get('obj') is not None and 'unique_ptr' in strip_targs(an.get('c', ''))):
+                continue
+            ap = access_path(f, an['obj'])
+            fld = ap[-1] if ap else None
+            # is there a constructor of the owning class that leaves the member null?
+            owner = f.nodes[an['obj']].get('owner') or ''
+            nullable = False
+            for c in prog.funcs.values():
+                if c.kind == 'ctor' and c.cls and owner and strip_targs(c.cls).endswith(strip_targs(owner).rsplit('::', 1)[-1]):
+                    for b in c.blocks:
+                        for e in b['el']:
+                            if isinstance(e, dict) and e.get('init') == fld and 'e' in e:
+                                iv = strip_casts(c, e['e'])
+                                while iv['k'] in ('construct', 'initlist') and len(iv.get('args', iv.get('ch', []))) == 1:
+                                    iv = strip_casts(c, (iv.get('args') or iv.get('ch'))[0])
+                                if iv.get('null') or (iv['k'] in ('construct', 'initlist') and not iv.get('args', iv.get('ch', []))):
+                                    nullable = True
+            if not nullable:
+                continue
+            if g is None:
+                g = Graph(prog, f, inline=None, sync_lambdas=False)
+            pt = g.point_of.get((id(g.root_ctx), n['i']))
+            pins = pointer_pins(f, lambda p_, ap=ap: p_ == ap, False)
+            cnt += 1
+            guarded = pt is not None and feasible_reach(g, [g.entry], [pt], pins=pins) is None
+            ck.verdict(guarded, rule, f, 'view-over-nullable-pointer:%s' % fld, n,
+                       'the view over %s is built only behind a non-null test' % fld if guarded else
+                       'a string view is built from %s.get(), which is null for objects made by the constructor that takes no text (EventId(int64_t)): strlen(nullptr) - emitting such an argument crashes instead of recording it' % fld)
+    return cnt
+
+
 def run(ck, prog):
     ck.doc('C13.R1', 'concrete log recordables own their data (no borrowing field types); API container setters view caller storage', 11)
     ck.doc('C13.R2', 'correlation: all three identity setters on every path behind a found active span; API setters sequenced left to right', 9)
@@ -262,6 +310,7 @@ def run(ck, prog):
     ck.doc('C01.R4', '(shared rule, see C01) count handed to Consume derives from size() / the batch bound', 1)
     ck.doc('C02.R13', '(shared rule, see C02) the logger provider\'s destructor shuts its context down', 1)
     ck.doc('C13.R7', 'the simple log processor hands every record to the exporter (no path around Export)', 1)
+    ck.doc('C13.R10', 'API argument setters build no string view over a pointer member that a constructor leaves null without testing it', 1)
     ck.doc('C13.R9', 'identity setters are independent: the shared trace-identity block is created only when absent', 3)
     ck.doc('C19.R7', '(shared rule, see C19) every named constructor parameter of the logger provider / context is used (the configurator reaches the context)', 3)
     with ck.canary('C13.R2'):
@@ -293,6 +342,7 @@ def run(ck, prog):
     if not n8:
         raise AnalysisBroken('no ForEachKeyValue copy callback found in the logs API traits')
     rule_r9(ck, prog)
+    rule_r10(ck, prog)
     # "a disabled logger emits nothing" needs the configurator to reach the context through every provider constructor (see C19.R7)
     from . import c19
     c19.rule_r7(ck, prog)
